@@ -295,16 +295,29 @@ def run_native_unit(uname, ucfg, tier, scratch):
     t0 = time.time()
     ws = os.path.join(scratch, "ws-" + uname)
     test_src_path = os.path.join(VERIF, ucfg["test"])
-    cmd = ["cargo", "test", "--release", "--offline", "-p", ucfg["crate"], "--test",
-           os.path.splitext(os.path.basename(ucfg["dest"]))[0], "--", "--nocapture"]
+    if ucfg.get("append_to"):
+        # internal enumeration: the module is appended to an existing #[cfg(test)] file of the crate
+        # (it needs crate-private builders) and selected by its name
+        cmd = ["cargo", "test", "--release", "--offline", "-p", ucfg["crate"], "--lib",
+               ucfg["test_filter"], "--", "--nocapture"]
+    else:
+        cmd = ["cargo", "test", "--release", "--offline", "-p", ucfg["crate"], "--test",
+               os.path.splitext(os.path.basename(ucfg["dest"]))[0], "--", "--nocapture"]
     out = {"unit": uname, "backend": "native", "obligations": [], "status": "ok", "reason": "", "functions": [],
            "assumption_scan": [], "wall_s": 0.0, "cmd": " ".join(cmd), "tool": "cargo test --release (native enumeration)",
            "solver_s": 0.0, "canary_failed": True, "native_found": {}}
     try:
         kinject.copy_workspace(REPO, ws)
-        dest = os.path.join(ws, ucfg["dest"])
-        os.makedirs(os.path.dirname(dest), exist_ok=True)
-        shutil.copy(test_src_path, dest)
+        if ucfg.get("append_to"):
+            tgt = os.path.join(ws, ucfg["append_to"])
+            if not os.path.exists(tgt):
+                raise AnchorError(f"anchored file {ucfg['append_to']} missing")
+            with open(tgt, "a") as f:
+                f.write("\n" + open(test_src_path).read())
+        else:
+            dest = os.path.join(ws, ucfg["dest"])
+            os.makedirs(os.path.dirname(dest), exist_ok=True)
+            shutil.copy(test_src_path, dest)
         env = dict(os.environ, CARGO_NET_OFFLINE="true")
         pr = subprocess.run(cmd, cwd=ws, capture_output=True, text=True, timeout=ucfg.get("timeout", 900), env=env)
         text = pr.stdout + pr.stderr
